@@ -13,7 +13,8 @@ LEVEL = "exploration"
 RULE = (
     "Pairs of non-empty binary masks in 1-3-D (sides <=12/8/5): random, single-voxel, one-voxel-thick lines/sheets, "
     "border-touching, disjoint, nested (erosion/dilation-derived), in C/Fortran/negative-stride/transposed/strided layouts, "
-    "called un-indexed, indexed by label, and through the matched-instance pipeline (per-instance crop). Exhaustive: all "
+    "called un-indexed, indexed by label, and through the matched-instance pipeline (per-instance crop); long 1-D and "
+    "2-row masks given as runs with objects up to 70000 voxels apart. Exhaustive: all "
     "pairs of non-empty 1-D masks up to length 5 (quick) / 7 (thorough), all 2x2 (quick) / 2x3 (thorough) mask pairs. "
     "Oracle: brute-force nearest-border-voxel distances on coordinate sets (tol 1e-9) + symmetry, non-negativity, zero iff "
     "borders coincide, invariance under zero padding (0-3 per side) and cropping to the joint bounding box. Non-trivial: "
@@ -87,9 +88,58 @@ def pipeline_case(draw):
     return {"kind": "pipeline", "ref": ref.tolist(), "pred": pred.tolist(), "dtype": draw(st.sampled_from(["uint8", "uint16", "uint32"]))}
 
 
+@st.composite
+def far_case(draw):
+    """Long 1-D (or thin 2-D) masks given as runs: objects tens of thousands of voxels apart."""
+    runs = []
+    for _ in range(draw(st.integers(2, 6))):
+        n = draw(st.sampled_from([1, 2, 3, 7, 100, 1000, 46340, 46341, 50000, 70000]))
+        a, b = draw(st.sampled_from([0, 0, 1])), draw(st.sampled_from([0, 0, 1]))
+        if n >= 1000 and draw(st.integers(0, 2)) > 0:
+            a = b = 0
+        runs.append([a, b, n])
+    return {"kind": "far", "runs": runs, "thin2d": draw(st.booleans()), "dtype": draw(st.sampled_from(["bool", "uint8"]))}
+
+
 def searches(tier):
     n = BUDGET[tier]
-    return [("direct", mask_pair(), n * 3 // 4), ("pipeline", pipeline_case(), n // 4)]
+    return [("direct", mask_pair(), n * 3 // 4), ("pipeline", pipeline_case(), n // 4), ("far_apart", far_case(), max(6, n // 25))]
+
+
+def check_far(case, stats):
+    pred = np.concatenate([np.full(n, a, dtype=np.int64) for a, b, n in case["runs"]])
+    ref = np.concatenate([np.full(n, b, dtype=np.int64) for a, b, n in case["runs"]])
+    if not pred.any():
+        pred[0] = 1
+    if not ref.any():
+        ref[-1] = 1
+    # brute force on run ends only: in 1-D the border voxels are the first and last voxel of every run
+    def borders(a):
+        idx = np.flatnonzero(a)
+        keep = [i for k, i in enumerate(idx) if k == 0 or k == len(idx) - 1 or idx[k - 1] != i - 1 or idx[k + 1] != i + 1]
+        return np.array(keep)
+    bp, br = borders(pred), borders(ref)
+    def asd(x, y):
+        return float(np.mean([np.min(np.abs(y - v)) for v in x]))
+    want = 0.5 * (asd(bp, br) + asd(br, bp))
+    gap = max(float(np.max([np.min(np.abs(br - v)) for v in bp])), float(np.max([np.min(np.abs(bp - v)) for v in br])))
+    stats.record(case, not np.array_equal(bp, br), ["far_apart", f"max_gap>{46340 if gap > 46340 else 0}"])
+    if case["thin2d"]:
+        # thin 2-D arrays: every voxel of a 1-voxel-thick row is a border voxel (out-of-array neighbours),
+        # so use two rows, where the 1-D border structure is preserved along the long axis only if the
+        # object is two rows thick: interior voxels then exist; compute the brute-force value on that array
+        p2, r2 = np.stack([pred, pred]), np.stack([ref, ref])
+        want2 = want  # rows are identical copies; every voxel touches the array border along axis 0
+        bp2 = np.flatnonzero(pred)
+        br2 = np.flatnonzero(ref)
+        want2 = 0.5 * (asd(bp2, br2) + asd(br2, bp2))
+        got = _assd(r2.astype(case["dtype"]), p2.astype(case["dtype"]))
+        if not H.same_value(got, want2, TOL):
+            raise Violation(f"ASSD={got!r} on a 2 x {len(pred)} array, brute force gives {want2!r} (largest gap {gap})")
+        return
+    got = _assd(ref.astype(case["dtype"]), pred.astype(case["dtype"]))
+    if not H.same_value(got, want, TOL):
+        raise Violation(f"ASSD={got!r} on a 1-D array of {len(pred)} voxels, brute force gives {want!r} (largest gap {gap})")
 
 
 def _all_masks(shape):
@@ -124,6 +174,8 @@ def _assd(ref, pred, label=None):
 def check(case, stats):
     if case["kind"] == "pipeline":
         return check_pipeline(case, stats)
+    if case["kind"] == "far":
+        return check_far(case, stats)
     ref0 = np.array(case["ref"], dtype=np.int64)
     pred0 = np.array(case["pred"], dtype=np.int64)
     shape = ref0.shape
